@@ -1,6 +1,7 @@
 // Stateful seek/read histories against a model (shared by C07 and C08).
 //   mode 7: after any successful seek, audio read == ground truth at the reported position, tell advances by samples returned
 //   mode 8: seeks reach every valid target and land where the API says; out-of-range arguments rejected without disturbance
+//   mode 20: mode 7 + mode 8 with ov_halfrate toggles in the history; audio is compared with the half-rate packet-level decode
 #pragma once
 #include "vfmodel.h"
 #include <algorithm>
@@ -39,6 +40,9 @@ struct SeekRun {
   std::string hist;           // op history (for messages / samples)
   int seeks_ok = 0, reads_after_seek = 0, calls = 0; bool last_was_seek = false; bool any_nontrivial = false;
   std::vector<double> tstart;  // time at start of each link (as the library sums it)
+  int hs = 0;                  // model of the half-rate flag (mode 20)
+  bool relaxed = false;        // mode 20: an interior link has odd length -> positions may be off by one after crossing it (DESIGN 3.21)
+  int toggles = 0, toggles_after_read = 0; bool did_read = false; bool toggle_seek_read = false; int stage = 0;
   SeekRun(Tape &t_, Report &r_, int m) : t(t_), r(r_), mode(m) {}
   ~SeekRun() { if (open) ov_clear(&vf); }
 
@@ -47,7 +51,7 @@ struct SeekRun {
     ms = MemSrc(); ms.data = &c.bytes; ms.read_mode = t.below(4) == 3 ? 2 : 0; ms.sched = Bulk(t.raw() | 1); ms.budget = vf_budget(c); ms.mark();
     int orr = ov_open_callbacks(&ms, &vf, NULL, 0, ms_callbacks(true));
     if (orr != 0) return r.fail("ov_open_callbacks=%d on an intact file [%s]", orr, desc.c_str());
-    open = true; pos = 0;
+    open = true; pos = 0; hs = 0;
     if (ov_pcm_total(&vf, -1) != g.total) return r.fail("ov_pcm_total=%lld, expected %lld (C09 territory) [%s]", (long long)ov_pcm_total(&vf, -1), (long long)g.total, desc.c_str());
     return true;
   }
@@ -66,6 +70,7 @@ struct SeekRun {
 
   bool check_tell_consistency(const char *after) {
     int64_t tl = ov_pcm_tell(&vf);
+    if (relaxed && hs && tl != pos && llabs(tl - pos) <= 1) { r.label("half rate: tell off by one after an odd-length interior link (tolerated)"); return true; }
     if (tl != pos) return r.fail("ov_pcm_tell=%lld, model position %lld after %s [hist %s] [%s]", (long long)tl, (long long)pos, after, hist.c_str(), desc.c_str());
     // time tell: same position expressed in seconds
     int l = (int)g.len.size() - 1; while (l > 0 && g.start[l] > pos) l--;
@@ -83,6 +88,7 @@ struct SeekRun {
     if (n < 0) return r.fail("ov_read_float returned %ld at position %lld on an intact file [hist %s] [%s]", n, (long long)pos, hist.c_str(), desc.c_str());
     if (n == 0) {
       eof = true;
+      if (hs && relaxed && pos < g.total && g.link_of(pos) == (int)g.len.size() - 1 && g.total - pos <= 1) { r.label("half rate: EOF one short after odd interior link (tolerated)"); return true; }
       if (pos < g.total) { // EOF is only right when nothing follows
         return r.fail("ov_read_float reports end of file at position %lld of %lld [hist %s] [%s]", (long long)pos, (long long)g.total, hist.c_str(), desc.c_str());
       }
@@ -90,13 +96,17 @@ struct SeekRun {
     }
     if (n > req) return r.fail("ov_read_float returned %ld > requested %d [%s]", n, req, desc.c_str());
     std::string why; vorbis_info *vi = ov_info(&vf, -1);
-    if (!gt_compare(g, pos, pcm, n, bs, vi ? vi->channels : -1, why)) return r.fail("%s [hist %s] [%s]", why.c_str(), hist.c_str(), desc.c_str());
-    pos += n;
+    // after reading through an odd-length interior link at half rate the running position is one ahead of the next link's first sample
+    if (hs && relaxed) { int l0 = g.link_of(pos); if (l0 >= 0 && ((pos - g.start[l0]) & 1)) pos -= 1; }
+    if (!gt_compare(g, pos, pcm, n, bs, vi ? vi->channels : -1, why, hs)) return r.fail("%s [hist %s] [%s]", why.c_str(), hist.c_str(), desc.c_str());
+    pos += n << hs; did_read = true;
+    if (stage == 2) { toggle_seek_read = true; }
     if (last_was_seek) { reads_after_seek++; if (calls >= 2) any_nontrivial = true; }
     last_was_seek = false;
     return check_tell_consistency("ov_read_float");
   }
   bool do_read_int(int len) {
+    if (hs && relaxed) { bool eof; return do_read(len / 4 + 1, eof); }
     int l = g.link_of(pos); int ch = l >= 0 ? (int)g.pcm[l].size() : 1;
     std::vector<char> buf((size_t)len + 4, 0x5a); int bs = -7; ms.mark();
     long n = ov_read(&vf, buf.data(), len, 0, 2, 1, &bs);
@@ -107,13 +117,15 @@ struct SeekRun {
     if (n % (2 * ch) || n > len) return r.fail("ov_read returned %ld bytes (frame %d, buffer %d) [%s]", n, 2 * ch, len, desc.c_str());
     if (bs != l) return r.fail("ov_read *bitstream=%d, position %lld is in link %d [hist %s] [%s]", bs, (long long)pos, l, hist.c_str(), desc.c_str());
     long frames = n / (2 * ch); int64_t off = pos - g.start[l];
-    if (off + frames > g.len[l]) return r.fail("ov_read ran past the end of link %d [hist %s] [%s]", l, hist.c_str(), desc.c_str());
+    const PCM &ref = hs ? g.half[l] : g.pcm[l];
+    if (hs) { if (off & 1) return r.fail("half-rate position %lld off link %d's grid [hist %s] [%s]", (long long)pos, l, hist.c_str(), desc.c_str()); off >>= 1; }
+    if (off + frames > (int64_t)ref[0].size()) return r.fail("ov_read ran past the end of link %d [hist %s] [%s]", l, hist.c_str(), desc.c_str());
     for (long i = 0; i < frames; i++) for (int q = 0; q < ch; q++) {
       int16_t v; memcpy(&v, &buf[(size_t)(i * ch + q) * 2], 2);
-      double x = (double)g.pcm[l][q][off + i] * 32768.0; if (x > 32767) x = 32767; if (x < -32768) x = -32768;
+      double x = (double)ref[q][off + i] * 32768.0; if (x > 32767) x = 32767; if (x < -32768) x = -32768;
       if (fabs((double)v - x) > 1.0) return r.fail("ov_read sample %ld ch %d = %d, float output %.3f [hist %s] [%s]", i, q, v, x, hist.c_str(), desc.c_str());
     }
-    pos += frames; last_was_seek = false;
+    pos += frames << hs; last_was_seek = false; did_read = true;
     return check_tell_consistency("ov_read");
   }
 
@@ -123,23 +135,45 @@ struct SeekRun {
     for (int64_t gp : st.page_gp[l]) if (gp < p && gp > lo) lo = gp;
   }
 
+  // half rate: largest position <= p on the sample grid of the link that a seek to p selects
+  int64_t grid_floor(int64_t p) const { int l = link_for_seek(p); return g.start[l] + ((p - g.start[l]) & ~(int64_t)1); }
+  bool do_toggle(int flag) {
+    hist += sfmt("halfrate(%d)", flag); ms.mark();
+    int ret = ov_halfrate(&vf, flag);
+    if (ret != 0) return r.fail("ov_halfrate(%d) returned %d on a file without 64-sample blocks [hist %s] [%s]", flag, ret, hist.c_str(), desc.c_str());
+    if (ov_halfrate_p(&vf) != (flag ? 1 : 0)) return r.fail("ov_halfrate_p=%d after ov_halfrate(%d) [hist %s] [%s]", ov_halfrate_p(&vf), flag, hist.c_str(), desc.c_str());
+    int64_t T = ov_pcm_tell(&vf); hist += sfmt("->%lld ", (long long)T);
+    int64_t lo = pos, hi = pos;
+    if (flag) lo = pos <= g.total ? grid_floor(pos) : g.total - 1;
+    else if (pos > g.total) { lo = g.total; hi = pos; }           // half-rate end of an odd-length file is total+1; full rate cannot express it
+    if (relaxed) { lo -= 1; hi += 1; }
+    if (T < lo || T > hi) return r.fail("ov_halfrate(%d) at position %lld left ov_pcm_tell=%lld (allowed [%lld,%lld]) [hist %s] [%s]", flag, (long long)pos, (long long)T, (long long)lo, (long long)hi, hist.c_str(), desc.c_str());
+    if (ov_pcm_total(&vf, -1) != g.total) return r.fail("ov_pcm_total=%lld after ov_halfrate(%d), expected %lld [%s]", (long long)ov_pcm_total(&vf, -1), flag, (long long)g.total, desc.c_str());
+    toggles++; if (did_read) { toggles_after_read++; stage = 1; }
+    r.label(flag ? "op halfrate on" : "op halfrate off"); if (did_read) r.label(flag ? "halfrate on after a read" : "halfrate off after a read");
+    hs = flag ? 1 : 0; pos = T; last_was_seek = true;    // the audio that follows must be the reference at T
+    return true;
+  }
+
   bool after_seek(const char *name, int ret, int64_t target, bool page_gran, int64_t tlo, int64_t thi) {
     // common: C07 takes tell as the truth for subsequent audio; C08 checks where it landed
     if (ret != 0) {
-      if (mode == 8) return r.fail("%s returned %d for an in-range target [hist %s] [%s]", name, ret, hist.c_str(), desc.c_str());
+      if (mode == 8 || mode == 20) return r.fail("%s returned %d for an in-range target [hist %s] [%s]", name, ret, hist.c_str(), desc.c_str());
       // mode 7: property speaks about successful seeks only; a failed seek leaves an undefined position -> reopen
       r.label("seek failed (mode 7: reopen)");
       return do_open();
     }
     int64_t T = ov_pcm_tell(&vf);
     if (T < 0 || T > g.total) return r.fail("after %s ov_pcm_tell=%lld outside [0,%lld] [hist %s] [%s]", name, (long long)T, (long long)g.total, hist.c_str(), desc.c_str());
-    if (mode == 8) {
+    if (mode == 8 || mode == 20) {
+      if (hs && !page_gran) { tlo = grid_floor(tlo); thi = grid_floor(thi); }
+      if (hs && relaxed) { tlo -= 1; thi += 1; }
       if (T < tlo || T > thi) return r.fail("%s(target %lld) landed at %lld, allowed [%lld,%lld] [hist %s] [%s]", name, (long long)target, (long long)T, (long long)tlo, (long long)thi, hist.c_str(), desc.c_str());
     }
-    pos = T; seeks_ok++; last_was_seek = true;
+    pos = T; seeks_ok++; last_was_seek = true; if (stage == 1) stage = 2;
     hist += sfmt("->%lld ", (long long)T);
     if (!check_tell_consistency(name)) return false;
-    if (mode == 8 && !page_gran && target == g.total) {   // a sample seek to L yields end of file on the next read
+    if ((mode == 8 || (mode == 20 && !hs)) && !page_gran && target == g.total) {   // a sample seek to L yields end of file on the next read
       float **pcm; int bs; long n = ov_read_float(&vf, &pcm, 1024, &bs);
       if (n != 0) return r.fail("read after %s(L) returned %ld instead of end of file [hist %s] [%s]", name, n, hist.c_str(), desc.c_str());
       r.label("seek to L then EOF");
@@ -149,6 +183,7 @@ struct SeekRun {
 
   bool run() {
     ChainOpts o; o.maxlinks = 4; o.maxN = 40000; o.comments = false;
+    if (mode == 20) { o.half = true; o.even_interior = !t.chance(1, 6); o.maxlinks = 3; o.maxN = 30000; }
     if (!gen_chain(t, r, o, c, g, meta, desc)) return false;
     make_targets(c, g, st);
     tstart.clear(); { double acc = 0; for (size_t l = 0; l < c.links.size(); l++) { tstart.push_back(acc); acc += (double)g.len[l] / (double)c.links[l].rate; } }
@@ -160,9 +195,15 @@ struct SeekRun {
     }
     if (!do_open()) return false;
     r.label(sfmt("links=%zu", c.links.size()));
+    if (mode == 20) {
+      for (size_t l = 0; l + 1 < c.links.size(); l++) if (g.len[l] & 1) relaxed = true;
+      if (relaxed) r.label("odd-length interior link (relaxed position checks)");
+      for (size_t l = 0; l < c.links.size(); l++) { int64_t hl = g.half[l].empty() ? 0 : (int64_t)g.half[l][0].size(); if (hl != (g.len[l] + 1) / 2) return r.fail("link %zu of length %lld decodes to %lld samples at half rate, expected %lld [%s]", l, (long long)g.len[l], (long long)hl, (long long)((g.len[l] + 1) / 2), desc.c_str()); }
+      if (t.chance(1, 2)) { if (!do_toggle(1)) return false; r.label("halfrate on before first read"); }
+    }
     int nops = 1 + t.below(24);
     for (int i = 0; i < nops; i++) {
-      int op = t.weighted({5, 4, 3, 2, 2, 2, 2, 1, 1, 2});
+      int op = mode == 20 ? t.weighted({5, 4, 2, 2, 2, 1, 2, 1, 1, 1, 4}) : t.weighted({5, 4, 3, 2, 2, 2, 2, 1, 1, 2});
       calls++;
       ms.mark();
       switch (op) {
@@ -201,9 +242,10 @@ struct SeekRun {
         case 6: { if (!do_read_int((int)t.below(t.chance(1, 4) ? 12 : 9000))) return false; r.label("op ov_read"); } break;
         case 7: {   // read to the end
           bool eof = false; long guard = 0; while (!eof) { if (!do_read(4096, eof)) return false; if (++guard > 100000) return r.fail("read loop does not end [%s]", desc.c_str()); }
-          if (pos != g.total) return r.fail("end of file reported at %lld of %lld [hist %s] [%s]", (long long)pos, (long long)g.total, hist.c_str(), desc.c_str());
+          if (pos != g.total && !(hs && pos == g.total + 1) && !(hs && relaxed && llabs(pos - g.total) <= 1)) return r.fail("end of file reported at %lld of %lld [hist %s] [%s]", (long long)pos, (long long)g.total, hist.c_str(), desc.c_str());
           r.label("op read-to-end"); } break;
         case 8: { hist += "reopen "; if (!do_open()) return false; r.label("op reopen"); } break;
+        case 10: { if (!do_toggle(hs ? (t.chance(1, 4) ? 1 : 0) : (t.chance(1, 4) ? 0 : 1))) return false; } break;
         case 9: {   // out-of-range arguments: rejected, position undisturbed
           int which = t.below(7); int ret = 0; const char *nm = "";
           int64_t big = g.total + 1 + (int64_t)t.below(1000); int64_t neg = -1 - (int64_t)t.below(1000);
@@ -227,6 +269,7 @@ struct SeekRun {
     }
     if (seeks_ok) r.label("has successful seek");
     if (c.links.size() > 1 && seeks_ok) r.label("chained with seek");
+    if (mode == 20) { any_nontrivial = toggle_seek_read; if (toggle_seek_read) r.label("toggle after a read, then seek, then read"); }
     if (any_nontrivial) r.nontriv(fnv1a(desc.data(), desc.size()) ^ fnv1a(hist.data(), hist.size()));
     if (r.want_sample() && seeks_ok) r.sample(desc + " ops: " + hist);
     return true;
